@@ -168,9 +168,14 @@ Section Step.
   (* AsyncMachine.add_model with queued='model': _transition_queue_dict[id(mod)] = deque() *)
   Definition lay_queue (w : mworld) (m : model) : mworld :=
     if per_model_queue k then set_queues w (add_key (w_queues w) m) else w.
-  (* GraphMachine.add_model: refuses an object that has get_graph; else binds it and builds the graph *)
-  Definition lay_graph (w : mworld) (m : model) : cres * mworld :=
-    if k_graph k then
+  (* GraphMachine.add_model: `known = list(self.models)` is taken BEFORE the base add_model; a model that was
+     registered then is skipped (no effect).  Any other model — registered by the base call just now — is
+     refused if the object already has a get_graph attribute (a model removed earlier keeps the attribute: the
+     graph classes have no remove_model; or it is shared with another graph machine): AttributeError AFTER the
+     base add_model registered it; otherwise get_graph is bound and the graph built. *)
+  Definition lay_graph (was_registered : bool) (w : mworld) (m : model) : cres * mworld :=
+    if was_registered then (inr None, w)
+    else if k_graph k then
       let o := w_obj w m in
       if has_helper HGraph (o_helpers o) then (inl AttributeError, w)
       else (inr None,
@@ -182,7 +187,7 @@ Section Step.
   Definition add_model (w : mworld) (m : model) (init : option state) : cres * mworld :=
     match add_core w m init with
     | (Some e, w1) => (inl e, w1)
-    | (None, w1) => lay_graph (lay_queue (lay_locked w1 m) m) m
+    | (None, w1) => lay_graph (mem_nat m (w_models w)) (lay_queue (lay_locked w1 m) m) m
     end.
 
   (* remove_model of a registered model (an unregistered one: list.remove raises ValueError;
